@@ -30,15 +30,16 @@ theorem getLast?_append_cons (a : Str) (c : Char) (cs : Str) : (a ++ c :: cs).ge
   simp [List.getLast?_append, List.getLast?_cons]
 
 /-- the end-of-document test after a complete line `l` (no newline inside) appended at a line start -/
-theorem endsDoc_line (tok l tag : Str) (hs : AtLineStart tok) (hl : '\n' ∉ l) (ht : '\n' ∉ tag) :
-    endsDoc (tok ++ l ++ ['\n']) (tag ++ ['\n']) = if l = tag then some tok else none := by
+theorem endsDoc_line (ex : Bool) (tok l tag : Str) (hs : AtLineStart tok) (hl : '\n' ∉ l) (ht : '\n' ∉ tag)
+    (hnc : (ex && endsCont tok) = false) :
+    endsDoc ex (tok ++ l ++ ['\n']) (tag ++ ['\n']) = if l = tag then some tok else none := by
   by_cases heq : l = tag
   · subst heq
     have : tok ++ l ++ ['\n'] = tok ++ (l ++ ['\n']) := by simp
     rw [this]
     simp only [endsDoc, stripSuffix?_append, ↓reduceIte]
     have := (atLineStart_cond tok).mpr hs
-    simp [this]
+    simp [this, hnc]
   · simp only [heq, ↓reduceIte]
     unfold endsDoc
     cases hss : stripSuffix? (tok ++ l ++ ['\n']) (tag ++ ['\n']) with
@@ -77,20 +78,22 @@ theorem endsDoc_line (tok l tag : Str) (hs : AtLineStart tok) (hl : '\n' ∉ l) 
       · rfl
 
 /-- tabs at a line start are skipped under `<<-` -/
-theorem scan_skip_tabs (tag tok more : Str) (hs : AtLineStart tok) (k : Nat) :
-    scan true tag tok (List.replicate k '\t' ++ more) = scan true tag tok more := by
+theorem scan_skip_tabs (ex : Bool) (tag tok more : Str) (hs : AtLineStart tok) (hnc : (ex && endsCont tok) = false) (k : Nat) :
+    scan true ex tag tok (List.replicate k '\t' ++ more) = scan true ex tag tok more := by
   induction k with
   | zero => rfl
   | succ k ih =>
     have hc := (atLineStart_cond tok).mpr hs
     simp only [List.replicate_succ, List.cons_append]
     rw [scan]
-    simp only [hc, decide_true, Bool.and_self, ↓reduceIte]
+    have hnc' : (!ex || !endsCont tok) = true := by
+      cases ex <;> simp at hnc ⊢; exact hnc
+    simp only [hc, decide_true, Bool.and_self, hnc', ↓reduceIte]
     exact ih
 
 /-- characters in the middle of a line are appended -/
-theorem scan_mid (rt : Bool) (tag more : Str) (l tok : Str) (hn : ¬ AtLineStart tok) (hl : '\n' ∉ l) :
-    scan rt tag tok (l ++ more) = scan rt tag (tok ++ l) more := by
+theorem scan_mid (rt ex : Bool) (tag more : Str) (l tok : Str) (hn : ¬ AtLineStart tok) (hl : '\n' ∉ l) :
+    scan rt ex tag tok (l ++ more) = scan rt ex tag (tok ++ l) more := by
   induction l generalizing tok with
   | nil => simp
   | cons c cs ih =>
@@ -111,17 +114,17 @@ theorem scan_mid (rt : Bool) (tag more : Str) (l tok : Str) (hn : ¬ AtLineStart
     simpa using this
 
 /-- one whole line (already without the tabs `<<-` removes) -/
-theorem scan_line (rt : Bool) (tag tok l more : Str) (hs : AtLineStart tok) (hl : '\n' ∉ l) (ht : '\n' ∉ tag)
-    (htab : rt = true → l.head? ≠ some '\t') :
-    scan rt tag tok (l ++ '\n' :: more) =
-      if l = tag then some (tok, more) else scan rt tag (tok ++ l ++ ['\n']) more := by
+theorem scan_line (rt ex : Bool) (tag tok l more : Str) (hs : AtLineStart tok) (hl : '\n' ∉ l) (ht : '\n' ∉ tag)
+    (htab : rt = true → l.head? ≠ some '\t') (hnc : (ex && endsCont tok) = false) :
+    scan rt ex tag tok (l ++ '\n' :: more) =
+      if l = tag then some (tok, more) else scan rt ex tag (tok ++ l ++ ['\n']) more := by
   cases l with
   | nil =>
     simp only [List.nil_append, List.append_nil]
     rw [scan]
-    have h1 : (rt && (tok.isEmpty || tok.getLast? = some '\n') && decide ('\n' = '\t')) = false := by simp
+    have h1 : (rt && (tok.isEmpty || tok.getLast? = some '\n') && decide ('\n' = '\t') && (!ex || !endsCont tok)) = false := by simp
     simp only [h1, Bool.false_eq_true, ↓reduceIte]
-    have := endsDoc_line tok [] tag hs (by simp) ht
+    have := endsDoc_line ex tok [] tag hs (by simp) ht hnc
     simp only [List.append_nil] at this
     rw [this]
     by_cases hlt : ([] : Str) = tag
@@ -129,7 +132,7 @@ theorem scan_line (rt : Bool) (tag tok l more : Str) (hs : AtLineStart tok) (hl 
     · simp [hlt]
   | cons c cs =>
     have hcn : c ≠ '\n' := fun h => hl (by simp [h])
-    have hct : (rt && (tok.isEmpty || tok.getLast? = some '\n') && decide (c = '\t')) = false := by
+    have hct : (rt && (tok.isEmpty || tok.getLast? = some '\n') && decide (c = '\t') && (!ex || !endsCont tok)) = false := by
       cases rt with
       | false => simp
       | true =>
@@ -144,12 +147,12 @@ theorem scan_line (rt : Bool) (tag tok l more : Str) (hs : AtLineStart tok) (hl 
       rcases h with h | h
       · simp at h
       · simp at h; exact hcn h
-    rw [scan_mid rt tag ('\n' :: more) cs (tok ++ [c]) hn' (fun h => hl (List.mem_cons_of_mem _ h))]
+    rw [scan_mid rt ex tag ('\n' :: more) cs (tok ++ [c]) hn' (fun h => hl (List.mem_cons_of_mem _ h))]
     rw [scan]
-    have h1 : (rt && ((tok ++ [c] ++ cs).isEmpty || (tok ++ [c] ++ cs).getLast? = some '\n') && decide ('\n' = '\t')) = false := by simp
+    have h1 : (rt && ((tok ++ [c] ++ cs).isEmpty || (tok ++ [c] ++ cs).getLast? = some '\n') && decide ('\n' = '\t') && (!ex || !endsCont (tok ++ [c] ++ cs))) = false := by simp
     simp only [h1, Bool.false_eq_true, ↓reduceIte]
     have e : tok ++ [c] ++ cs = tok ++ (c :: cs) := by simp
-    rw [e, endsDoc_line tok (c :: cs) tag hs hl ht]
+    rw [e, endsDoc_line ex tok (c :: cs) tag hs hl ht hnc]
     by_cases hlt : c :: cs = tag
     · simp [hlt]
     · simp [hlt]
@@ -184,26 +187,61 @@ theorem stripTabs_noNl (rt : Bool) (l : Str) (h : '\n' ∉ l) : '\n' ∉ stripTa
     exact h ((List.dropWhile_sublist _).subset hm)
 
 /-- a line of the input, tabs included -/
-theorem scan_raw_line (rt : Bool) (tag tok l more : Str) (hs : AtLineStart tok) (hl : '\n' ∉ l) (ht : '\n' ∉ tag) :
-    scan rt tag tok (l ++ '\n' :: more) =
-      if stripTabs rt l = tag then some (tok, more) else scan rt tag (tok ++ stripTabs rt l ++ ['\n']) more := by
+theorem scan_raw_line (rt ex : Bool) (tag tok l more : Str) (hs : AtLineStart tok) (hl : '\n' ∉ l) (ht : '\n' ∉ tag)
+    (hnc : (ex && endsCont tok) = false) :
+    scan rt ex tag tok (l ++ '\n' :: more) =
+      if stripTabs rt l = tag then some (tok, more) else scan rt ex tag (tok ++ stripTabs rt l ++ ['\n']) more := by
   cases rt with
   | false =>
-    simpa [stripTabs] using scan_line false tag tok l more hs hl ht (by simp)
+    simpa [stripTabs] using scan_line false ex tag tok l more hs hl ht (by simp) hnc
   | true =>
     obtain ⟨k, hk⟩ := stripTabs_decomp l
     have e : l ++ '\n' :: more = List.replicate k '\t' ++ (stripTabs true l ++ '\n' :: more) := by
       conv => lhs; rw [hk]
       simp
-    rw [e, scan_skip_tabs tag tok _ hs k]
-    exact scan_line true tag tok (stripTabs true l) more hs (stripTabs_noNl true l hl) ht (fun _ => stripTabs_head l)
+    rw [e, scan_skip_tabs ex tag tok _ hs hnc k]
+    exact scan_line true ex tag tok (stripTabs true l) more hs (stripTabs_noNl true l hl) ht (fun _ => stripTabs_head l) hnc
 
 theorem atLineStart_snoc (t : Str) : AtLineStart (t ++ ['\n']) := Or.inr (by simp)
 
-theorem scan_lines_from (rt : Bool) (tag : Str) (lines : List Str) (rest : Str)
+theorem takeWhile_append_stop {α : Type} (p : α → Bool) (a b : List α) (hb : ∀ x, b.head? = some x → p x = false) :
+    (a ++ b).takeWhile p = a.takeWhile p ++ (if a.all p then [] else []) := by
+  induction a with
+  | nil =>
+    cases b with
+    | nil => simp
+    | cons x xs => simp [List.takeWhile_cons, hb x rfl]
+  | cons y ys ih =>
+    simp only [List.cons_append, List.takeWhile_cons]
+    split
+    · simp [ih]
+    · simp
+
+/-- at a line start the backslashes at the end of `tok ++ l` are those of `l` -/
+theorem trailingBackslashes_at_line_start (tok l : Str) (hs : AtLineStart tok) :
+    trailingBackslashes (tok ++ l) = trailingBackslashes l := by
+  unfold trailingBackslashes
+  rw [List.reverse_append, takeWhile_append_stop]
+  · simp
+  · intro x hx
+    rcases hs with h | h
+    · subst h; simp at hx
+    · have : tok.reverse.head? = some '\n' := by simpa [List.head?_reverse] using h
+      rw [this] at hx
+      simp at hx
+      subst hx
+      decide
+
+theorem endsCont_snoc (x : Str) : endsCont (x ++ ['\n']) = decide (trailingBackslashes x % 2 = 1) := by
+  simp [endsCont, stripSuffix?_append]
+
+theorem scan_lines_from (rt ex : Bool) (tag : Str) (lines : List Str) (rest : Str)
     (htag : '\n' ∉ tag) (htagT : rt = true → tag.head? ≠ some '\t')
-    (hl : ∀ l ∈ lines, '\n' ∉ l ∧ stripTabs rt l ≠ tag) (tabs : Nat) (tok : Str) (hs : AtLineStart tok) :
-    scan rt tag tok (joinLines lines ++ (List.replicate (if rt then tabs else 0) '\t' ++ tag ++ ['\n']) ++ rest)
+    (hl : ∀ l ∈ lines, '\n' ∉ l ∧ stripTabs rt l ≠ tag)
+    (hcont : ex = true → ∀ l ∈ lines, trailingBackslashes (stripTabs rt l) % 2 = 0)
+    (tabs : Nat) (tok : Str) (hs : AtLineStart tok)
+    (hnc : (ex && endsCont tok) = false) :
+    scan rt ex tag tok (joinLines lines ++ (List.replicate (if rt then tabs else 0) '\t' ++ tag ++ ['\n']) ++ rest)
       = some (tok ++ joinLines (lines.map (stripTabs rt)), rest) := by
   induction lines generalizing tok with
   | nil =>
@@ -214,27 +252,36 @@ theorem scan_lines_from (rt : Bool) (tag : Str) (lines : List Str) (rest : Str)
     cases rt with
     | false =>
       simp only [Bool.false_eq_true, ↓reduceIte, List.replicate_zero, List.nil_append]
-      rw [scan_line false tag tok tag rest hs htag htag (by simp)]
+      rw [scan_line false ex tag tok tag rest hs htag htag (by simp) hnc]
       simp
     | true =>
       simp only [↓reduceIte]
-      rw [scan_skip_tabs tag tok _ hs tabs, scan_line true tag tok tag rest hs htag htag htagT]
+      rw [scan_skip_tabs ex tag tok _ hs hnc tabs, scan_line true ex tag tok tag rest hs htag htag htagT hnc]
       simp
   | cons l ls ih =>
     have h1 := hl l (by simp)
     have e : joinLines (l :: ls) ++ (List.replicate (if rt then tabs else 0) '\t' ++ tag ++ ['\n']) ++ rest
         = l ++ '\n' :: (joinLines ls ++ (List.replicate (if rt then tabs else 0) '\t' ++ tag ++ ['\n']) ++ rest) := by
       simp [joinLines]
-    rw [e, scan_raw_line rt tag tok l _ hs h1.1 htag]
+    rw [e, scan_raw_line rt ex tag tok l _ hs h1.1 htag hnc]
     simp only [h1.2, ↓reduceIte]
-    rw [ih (fun l' hl' => hl l' (by simp [hl'])) _ (atLineStart_snoc _)]
+    have hnc' : (ex && endsCont (tok ++ stripTabs rt l ++ ['\n'])) = false := by
+      cases hex : ex with
+      | false => rfl
+      | true =>
+        have := hcont hex l (by simp)
+        have e2 : tok ++ stripTabs rt l ++ ['\n'] = (tok ++ stripTabs rt l) ++ ['\n'] := rfl
+        rw [e2, endsCont_snoc, trailingBackslashes_at_line_start tok _ hs, this]
+        simp
+    rw [ih (fun l' hl' => hl l' (by simp [hl'])) (fun hex l' hl' => hcont hex l' (by simp [hl'])) _ (atLineStart_snoc _) hnc']
     simp [joinLines]
 
-theorem scan_lines (rt : Bool) (tag : Str) (lines : List Str) (rest : Str)
+theorem scan_lines (rt ex : Bool) (tag : Str) (lines : List Str) (rest : Str)
     (htag : '\n' ∉ tag) (htagT : rt = true → tag.head? ≠ some '\t')
-    (hl : ∀ l ∈ lines, '\n' ∉ l ∧ stripTabs rt l ≠ tag) (tabs : Nat) :
-    scan rt tag [] (joinLines lines ++ (List.replicate (if rt then tabs else 0) '\t' ++ tag ++ ['\n']) ++ rest)
+    (hl : ∀ l ∈ lines, '\n' ∉ l ∧ stripTabs rt l ≠ tag)
+    (hcont : ex = true → ∀ l ∈ lines, trailingBackslashes (stripTabs rt l) % 2 = 0) (tabs : Nat) :
+    scan rt ex tag [] (joinLines lines ++ (List.replicate (if rt then tabs else 0) '\t' ++ tag ++ ['\n']) ++ rest)
       = some (joinLines (lines.map (stripTabs rt)), rest) := by
-  simpa using scan_lines_from rt tag lines rest htag htagT hl tabs [] (Or.inl rfl)
+  simpa using scan_lines_from rt ex tag lines rest htag htagT hl hcont tabs [] (Or.inl rfl) (by simp [endsCont, stripSuffix?])
 
 end BrushVerif.HereDoc
